@@ -83,9 +83,9 @@ class Registry:
         self.assumptions: list[tuple[str, str]] = []     # (kind, text)  -> assumptions.lock
 
     # -- schemas -----------------------------------------------------------------------
-    def schema(self, name, bases=(), invariant=None, **fields):
-        self.schemas[name] = ClassSchema(name, list(bases), dict(fields), invariant)
-        return self.schemas[name]
+    def schema(self, _cls_name, bases=(), invariant=None, **fields):
+        self.schemas[_cls_name] = ClassSchema(_cls_name, list(bases), dict(fields), invariant)
+        return self.schemas[_cls_name]
 
     def field(self, cls: str, fname: str):
         """-> (declaring class, T) or None"""
